@@ -348,3 +348,86 @@ func ErrStr(err error) string {
 	}
 	return err.Error()
 }
+
+func cmpRaceFrames(path string, want []gen.Frame, got []stack.Call, withArgs bool) string {
+	if len(want) != len(got) {
+		return fmt.Sprintf("%s: %d calls want %d", path, len(got), len(want))
+	}
+	for i := range want {
+		p := fmt.Sprintf("%s.Calls[%d]", path, i)
+		if d := cmpFunc(p, &want[i].Sym, &got[i].Func, 0); d != "" {
+			return d
+		}
+		if d := cmpFile(p, want[i].File, want[i].Line, &got[i]); d != "" {
+			return d
+		}
+		a := want[i].Args
+		if !withArgs {
+			a = gen.Args{}
+		}
+		if d := cmpArgs(p+".Args", &a, &got[i].Args); d != "" {
+			return d
+		}
+	}
+	return ""
+}
+
+// CompareRace checks a parsed snapshot against the abstract race report.
+func CompareRace(w *gen.Race, s *stack.Snapshot) string {
+	if s == nil {
+		return "no snapshot returned for a race report"
+	}
+	if len(s.Goroutines) != len(w.Ops) {
+		return fmt.Sprintf("%d goroutines parsed, %d operations printed", len(s.Goroutines), len(w.Ops))
+	}
+	if !s.IsRace() {
+		return "IsRace()=false for a race report"
+	}
+	cr := map[int]*gen.RaceCreate{}
+	for i := range w.Creates {
+		cr[w.Creates[i].GID] = &w.Creates[i]
+	}
+	for i := range w.Ops {
+		op, g := &w.Ops[i], s.Goroutines[i]
+		p := fmt.Sprintf("G[%d]", i)
+		if g.ID != op.GID {
+			return fmt.Sprintf("%s.ID=%d want %d", p, g.ID, op.GID)
+		}
+		if g.RaceAddr != op.Addr {
+			return fmt.Sprintf("%s.RaceAddr=%#x want %#x", p, g.RaceAddr, op.Addr)
+		}
+		if g.RaceWrite != op.Write {
+			return fmt.Sprintf("%s.RaceWrite=%v want %v", p, g.RaceWrite, op.Write)
+		}
+		if g.First != (i == 0) {
+			return fmt.Sprintf("%s.First=%v", p, g.First)
+		}
+		if g.SleepMin != 0 || g.SleepMax != 0 || g.Locked {
+			return p + ": sleep/lock set on a race goroutine"
+		}
+		if d := cmpRaceFrames(p+".Stack", op.Frames, g.Stack.Calls, w.WithArgs); d != "" {
+			return d
+		}
+		if g.Stack.Elided {
+			return p + ".Stack.Elided set"
+		}
+		c := cr[op.GID]
+		if c == nil {
+			if g.State != "" || len(g.CreatedBy.Calls) != 0 {
+				return fmt.Sprintf("%s: goroutine without creation section has state %q and %d creation calls", p, g.State, len(g.CreatedBy.Calls))
+			}
+			continue
+		}
+		st := "finished"
+		if c.Running {
+			st = "running"
+		}
+		if g.State != st {
+			return fmt.Sprintf("%s.State=%q want %q", p, g.State, st)
+		}
+		if d := cmpRaceFrames(p+".CreatedBy", c.Frames, g.CreatedBy.Calls, w.WithArgs); d != "" {
+			return d
+		}
+	}
+	return ""
+}
